@@ -43,4 +43,23 @@ def handlePlanFit (st : St) (op : String) (j : Json) : Option (D (St × Json)) :
     | "clear_incompatible" =>
       return (st, ePStF 0 (ps.clearIncompatibleF S (← nat (← field j "pos")) (← nat (← field j "type"))))
     | k => throw s!"bad planNodeOpF kind {k}"
+  | "fillRequest" => some do
+    -- the filler request of `clear_incompatible` on a node value: [valid end, size of the fillers, can_replace]
+    let S ← getSchema st j
+    let n ← node (← field j "node")
+    let ty ← nat (← field j "type")
+    let r := fillRequestOf S n ty
+    return (st, ok (Json.arr #[Json.bool r.1, jn r.2.1, match r.2.2 with
+      | some b => Json.bool b
+      | none => Json.null]))
+  | "clearKeeps" => some do
+    -- the conclusion of `clearIncompatibleF_keeps` evaluated on the real documents before / after
+    let S ← getSchema st j
+    let d ← node (← field j "doc")
+    let d' ← node (← field j "after")
+    let pos ← nat (← field j "pos")
+    let ty ← nat (← field j "type")
+    return (st, match clearKeepsCheck S d pos ty d' with
+      | some (a, b, c) => ok (Json.arr #[Json.bool a, Json.bool b, Json.bool c])
+      | none => ok Json.null)
   | _ => none
